@@ -269,6 +269,9 @@ def check(tier, seed):
         for v in r["viol"]:
             rep.violate(v["mechanism"], v["message"], {"case": v["case"]})
     rep.extra["monitor_hits"] = hits
+    from vf.props import pool_common as _PC
+
+    _PC.add_workload_monitor_results(rep, PROP, tier, seed)
     if hits["fill_radial_cells"] == 0 or hits["dgtsv"] == 0:
         rep.inconclusive.append(f"a deciding monitor was never reached: {hits}")
     rep.assumptions = [
